@@ -204,8 +204,11 @@ class _Quadrature(torch.autograd.Function):
                 with torch.enable_grad():
                     f = fcn(x, *params)
                 if f.requires_grad:
+                    # f has as many elements as grad_ys, but its shape follows the shape
+                    # of x, which can differ between xl, xu and the quadrature points
+                    # (e.g. a 0-dim tensor or a number and a 1-element 1D tensor)
                     dfdts = torch.autograd.grad(f, tensor_params,
-                                                grad_outputs=grad_ys,
+                                                grad_outputs=grad_ys.reshape(f.shape),
                                                 retain_graph=True,
                                                 create_graph=torch.is_grad_enabled(),
                                                 allow_unused=True)
